@@ -53,11 +53,19 @@ def run_failing(cfg, devs, device, n, t_end=2_000_000_003, kind="device", bus=No
         async def setup(self, adapter, raise_interrupt):
             await asyncio.Event().wait()     # serve forever (until cancelled)
 
+    class ReturningIo:
+        async def setup(self, adapter, raise_interrupt):
+            return                           # an io that only starts a server and returns (as TcpIo, EpicsIo do)
+
     def adapters():
-        return [AdapterContainer(BlockingAdapter(), BlockingIo())]
+        # adapters whose task has long finished next to adapters that serve until cancelled, in both orders
+        return [AdapterContainer(BlockingAdapter(), ReturningIo()), AdapterContainer(BlockingAdapter(), BlockingIo()),
+                AdapterContainer(BlockingAdapter(), BlockingIo()), AdapterContainer(BlockingAdapter(), ReturningIo()),
+                AdapterContainer(BlockingAdapter(), BlockingIo())]
 
     def failing_adapters():
-        return [AdapterContainer(BlockingAdapter(), BlockingIo()), AdapterContainer(FailingAdapter(), BlockingIo())]
+        return [AdapterContainer(BlockingAdapter(), ReturningIo()), AdapterContainer(BlockingAdapter(), BlockingIo()),
+                AdapterContainer(FailingAdapter(), BlockingIo())]
 
     async def main(loop):
         import tickit.core.components.component as cc
@@ -171,9 +179,16 @@ def configs(tier, rng):
           4: dict(order=[(10, "dev")], conns=[])},
          {4: (9, 400_000_000, 1), 6: (9, 300_000_000, 0), 7: (9, 300_000_000, 1), 8: (9, 300_000_000, 0), 10: (9, 500_000_000, 1)}),
     ]
+    # devices that ask to be re-evaluated at once (a callback at the time of the update itself): a wakeup that is due
+    # already when another component of the same tick fails
+    out.append(({1: dict(order=[(3, "dev"), (4, "dev"), (5, "dev")], conns=[(3, 1, 4, 1)])},
+                {3: (3, 300_000_000, 1), 4: (3, 300_000_000, 0), 5: (3, 300_000_000, 5)}))
+    out.append(({1: dict(order=[(3, "dev"), (4, 2), (8, "dev")], conns=[(3, 1, 4, 1)]),
+                 2: dict(order=[(5, "dev"), (6, "dev")], conns=[(EXT, 1, 5, 1), (5, 1, 6, 1), (6, 1, EXP, 1)])},
+                {3: (5, 300_000_000, 1), 5: (5, 300_000_000, 5), 6: (5, 500_000_000, 0), 8: (5, 300_000_000, 5)}))
     for _ in range({"quick": 4, "thorough": 60}[tier]):
         cfg = slevel.gen_config(rng, depth=rng.choice([0, 1, 2]))
-        out.append((cfg, slevel.gen_devs(rng, cfg, (1, 1, 3, 4))))
+        out.append((cfg, slevel.gen_devs(rng, cfg, (1, 1, 3, 4, 5))))
     return out
 
 
